@@ -32,7 +32,7 @@ import random
 
 from .progs import (  # noqa: F401
     NULL, THIS, UNDEF, arr, assign, b_, bin_, block, brk, call, cond, cont, dot, dowhile, expr, fdecl, fn, for_,
-    forin, forof, id_, idx, if_, init, label, log, logic, mcall, new, num, obj, ret, s_, switch, throw, to_js,
+    forin, forof, id_, idx, if_, init, label, log, logic, mcall, new, num, obj, ret, s_, seq, switch, throw, to_js,
     try_, un, upd, var, while_, Layout,
 )
 
@@ -177,8 +177,8 @@ def _match_paren(src, i):
     raise ValueError("unbalanced parenthesis")
 
 
-def substitute(src):
-    """Replace `$x_name()` / `$cb_name(f)` by their JavaScript text."""
+def substitute(src, dyn=None):
+    """Replace `$x_name()` / `$cb_name(f)` by their JavaScript text (dyn: text of `$x_dyn()`)."""
     out = []
     i = 0
     n = len(src)
@@ -198,10 +198,10 @@ def substitute(src):
             close = _match_paren(src, j)
             if kind == "x":
                 assert close == j + 1
-                out.append("(" + TEXT_SITES[name][0] + ")")
+                out.append("(" + (dyn if name == "dyn" else TEXT_SITES[name][0]) + ")")
             else:
                 pre, suf = TEXT_CALLBACKS[name]
-                out.append("(" + pre + substitute(src[j + 1:close]) + suf + ")")
+                out.append("(" + pre + substitute(src[j + 1:close], dyn) + suf + ")")
             i = close + 1
             continue
         out.append(ch)
@@ -211,7 +211,8 @@ def substitute(src):
 
 def to_source(prog, layout=None):
     """JavaScript text of a C07 program as the engine (or node) gets it."""
-    return substitute(to_js(prog, layout))
+    dyn = prog.get("desc", {}).get("text") if isinstance(prog, dict) else None
+    return substitute(to_js(prog, layout), dyn)
 
 
 # ======================================================================== prelude
@@ -350,7 +351,8 @@ def _callback_site(method, at, vname="str"):
         e = mcall(a, "sort", f)
     else:
         e = mcall(a, method, f)
-    return _site("callback", e, _value_setup(vname) + [var(("ncb", num(0)))], tags=["cb:" + method])
+    # the counter is reset with every evaluation: the site throws each time it is evaluated
+    return _site("callback", seq(assign(id_("ncb"), num(0)), e), _value_setup(vname) + [var(("ncb", num(0)))], tags=["cb:" + method])
 
 
 def _conv_object(flavor, vname="str"):
@@ -395,6 +397,10 @@ CONVERSION_CONTEXTS = {
     "sort-default": lambda: mcall(arr(_c(), num(1)), "sort"), "sort-result": lambda: mcall(arr(num(3), num(1)), "sort", fn(None, ["a", "b"], [ret(_c())])),
     "Error-message": lambda: new(id_("Error"), _c()),
 }
+# both operands are objects: the left one is converted first, the right one only if the left did not throw
+for _op in ["-", "*", "/", "%", "**", "<", ">", "<=", ">=", "&", "|", "<<", ">>>", "+"]:  # not ==: two objects compare by identity
+    CONVERSION_CONTEXTS["two:%s:throw-right" % _op] = (lambda op: (lambda: bin_(op, id_("cl"), _c())))(_op)
+    CONVERSION_CONTEXTS["two:%s:throw-left" % _op] = (lambda op: (lambda: bin_(op, _c(), id_("cl"))))(_op)
 _STRING_HINT = {"key-get", "key-set", "key-in", "String", "join", "arr-concat", "indexOf-str", "str-concat", "sort-default", "Error-message"}
 
 
@@ -402,6 +408,7 @@ def _conversion_site(ctxname, flavor, vname="str"):
     setup = _value_setup(vname) + [
         var(("cv", _conv_object(flavor, vname))), var(("cw", id_("cv"))), var(("cs", s_("a"))), var(("cn", num(1))),
         var(("ch", obj(init("p", id_("cv"))))), var(("ca", arr(num(1)))),
+        var(("cl", obj(init("valueOf", fn(None, [], [log("vo-other", num(0)), ret(num(3))])), init("toString", fn(None, [], [log("ts-other", num(0)), ret(s_("3"))]))))),
     ]
     return _site("conversion", CONVERSION_CONTEXTS[ctxname](), setup, tags=["conv:" + ctxname, "flavor:" + flavor])
 
@@ -446,6 +453,11 @@ def _callform_sites():
     yield "arrow-expr", _site("callform", call(id_("af")), base + [var(("af", ("arrow", [], call(th), True)))])
     yield "iife", _site("callform", call(fn(None, [], [log("iife", num(0)), throw(VALUES["obj"][0])])), [])
     yield "nfe-recursive", _site("callform", call(fn("rec", ["n"], [log("rec", id_("n")), if_(bin_("===", id_("n"), num(0)), throw(VALUES["error"][0])), ret(bin_("+", num(1), call(id_("rec"), bin_("-", id_("n"), num(1)))))]), num(3)), [])
+    yield "deep-recursion", _site("callform", call(fn("rec", ["n"], [if_(bin_("===", id_("n"), num(0)), block(log("bottom", num(0)), throw(VALUES["error"][0]))), ret(bin_("+", num(1), call(id_("rec"), bin_("-", id_("n"), num(1)))))]), num(40)), [])
+    deep = throw(VALUES["obj"][0])
+    for _m in ("forEach", "map", "some", "filter", "findIndex", "find"):
+        deep = expr(mcall(arr(num(1)), _m, fn(None, ["a", "b"], [log("deep", s_(_m)), deep])))
+    yield "deep-native-nesting", _site("callform", deep[1], [])
     yield "callback-bound", _site("callform", mcall(arr(num(1)), "forEach", mcall(th, "bind", NULL)), base)
     yield "callback-direct", _site("callform", mcall(arr(num(1)), "map", th), base)
     yield "apply-arraylike-getter", _site("callform", mcall(id_("s"), "apply", NULL, id_("al")),
@@ -550,7 +562,7 @@ def _build_sites():
     for name, st in _accessor_sites():
         sites["acc:" + name] = st
     for name in CONVERSION_CONTEXTS:
-        flavors = ["vo", "ts"]
+        flavors = ["vo", "ts"] if not name.startswith("two:") else ["vo"]
         for fl in flavors:
             sites["conv:%s:%s" % (name, fl)] = _conversion_site(name, fl)
     sites["conv:add-l:both:error"] = _conversion_site("add-l", "both", "error")
@@ -561,9 +573,18 @@ def _build_sites():
 
 
 SITES = _build_sites()
+
+
+def get_site(desc):
+    """Site of a recipe; "dyn" = a raising call discovered at run time (desc: text, ctor)."""
+    if desc["site"] == "dyn":
+        return _site("builtin", call(id_("$x_dyn")), [], desc["ctor"], tags=["text", "dyn"])
+    return SITES[desc["site"]]
 PLACEMENTS = ["same", "caller", "caller2", "native1", "native2", "nativecaller", "returned"]
 NATIVE_KINDS = ["forEach", "map", "filter", "reduce", "some", "every", "find", "findIndex", "sort", "reduceRight"]
-XCTX = ["stmt", "plus-right", "plus-left", "arg", "arr", "obj", "cond", "mcall", "member-assign", "return", "var", "logic", "nested-call"]
+XCTX = ["stmt", "plus-right", "plus-left", "arg", "arr", "obj", "cond", "mcall", "member-assign", "return", "var", "logic", "nested-call",
+        "if", "while", "dowhile-test", "for-update", "for-test", "forof-head", "forin-head", "switch-disc", "switch-case", "throw-arg",
+        "in-forof", "in-forin", "in-switch", "in-forof-forin", "callee", "new-callee", "member-of", "index-key", "unary", "typeof"]
 CATCH_EXITS = ["n", "b", "c", "bL", "cL", "r", "t", "rt"]
 FINALLY_EXITS = ["n", "b", "c", "bL", "cL", "r", "t"]
 LOOP_KINDS = ["for", "while", "forof", "forin", "dowhile"]
@@ -577,6 +598,8 @@ def xctx(e, C, P):
     after = call(id_("s"), num(3000))  # must never be evaluated
     wrap = {
         "stmt": e, "member-assign": e, "return": e, "var": e,
+        "if": e, "while": e, "dowhile-test": e, "for-update": e, "for-test": e, "forof-head": e, "forin-head": e, "switch-disc": e, "switch-case": e, "throw-arg": e,
+        "in-forof": e, "in-forin": e, "in-switch": e, "in-forof-forin": e, "callee": e, "new-callee": e, "member-of": e, "index-key": e, "unary": e, "typeof": e,
         "plus-right": bin_("+", num(100), e),
         "plus-left": bin_("+", e, after),
         "arg": call(id_("s"), e),
@@ -587,6 +610,31 @@ def xctx(e, C, P):
         "logic": logic("||", logic("&&", num(1), e), after),
         "mcall": mcall(id_("REG"), "indexOf", e, after),
     }[C]
+    no = log("no", num(0))
+    stmt_forms = {
+        "if": lambda: [if_(e, block(no))],
+        "while": lambda: [while_(e, block(no, brk()))],
+        "dowhile-test": lambda: [dowhile(block(log("body", num(0))), e)],
+        "for-update": lambda: [for_(assign(id_("q"), num(0)), bin_("<", id_("q"), num(2)), e, block(log("body", id_("q"))))],
+        "for-test": lambda: [for_(assign(id_("q"), num(0)), e, upd("++", id_("q")), block(no, brk()))],
+        "forof-head": lambda: [forof(id_("q"), e, block(no))],
+        "forin-head": lambda: [forin(id_("q"), e, block(no))],
+        "switch-disc": lambda: [switch(e, [(num(1), [no])])],
+        "switch-case": lambda: [switch(call(id_("s"), num(1000)), [(num(7), [no]), (e, [no]), (None, [no])])],
+        "throw-arg": lambda: [throw(e)],
+        "in-forof": lambda: [forof(id_("q"), arr(num(1), num(2)), block(log("in", id_("q")), expr(assign(id_("q"), bin_("+", call(id_("s"), num(1000)), e))), no))],
+        "in-forin": lambda: [forin(id_("q"), obj(init("k1", num(1)), init("k2", num(2))), block(log("in", id_("q")), expr(e), no))],
+        "in-switch": lambda: [switch(call(id_("s"), num(1000)), [(num(1000), [log("in", num(0)), expr(arr(call(id_("s"), num(2000)), e)), no])])],
+        "in-forof-forin": lambda: [forof(id_("q"), arr(num(1), num(2)), block(forin(id_("qo2"), obj(init("k1", num(1))), block(log("in", id_("q")), expr(e), no))))],
+        "callee": lambda: [expr(call(e, after))],
+        "new-callee": lambda: [expr(new(e, after))],
+        "member-of": lambda: [expr(dot(e, "p"))],
+        "index-key": lambda: [expr(idx(id_("qo"), e))],
+        "unary": lambda: [expr(un("-", e))],
+        "typeof": lambda: [expr(un("typeof", e))],
+    }
+    if C in stmt_forms:
+        return stmt_forms[C](), False
     if C == "member-assign":
         if P == 0:
             return [expr(assign(dot(id_("qo"), "m"), e))], False
@@ -607,11 +655,12 @@ def xctx(e, C, P):
 
 
 # =========================================================================== shapes
-def shape1(kind, cx="n", fx="n", spos="try", inner=None, ipos="try"):
+def shape1(kind, cx="n", fx="n", spos="try", inner=None, ipos="try", tx="n"):
     """Recipe of one try statement.  kind C | F | CF; cx / fx exits of the catch / finally block;
     spos = block of *this* statement holding the throwing statement (when it has no inner);
-    inner = nested recipe sitting in block ipos."""
-    return {"k": kind, "cx": cx, "fx": fx, "spos": spos, "in": inner, "ipos": ipos}
+    inner = nested recipe sitting in block ipos; tx = exit at the end of the try block (reached when
+    the inner statement swallowed the exception, or when the throwing statement sits in the finally block)."""
+    return {"k": kind, "cx": cx, "fx": fx, "spos": spos, "in": inner, "ipos": ipos, "tx": tx}
 
 
 def shape_depth(sh):
@@ -635,7 +684,15 @@ def shape_valid(sh):
 
 def shape_uses_loops(sh):
     while sh:
-        if (sh["k"] != "F" and sh["cx"] in ("b", "c", "bL", "cL")) or (sh["k"] != "C" and sh["fx"] in ("b", "c", "bL", "cL")):
+        if (sh["k"] != "F" and sh["cx"] in ("b", "c", "bL", "cL")) or (sh["k"] != "C" and sh["fx"] in ("b", "c", "bL", "cL")) or sh.get("tx", "n") in ("b", "c", "bL", "cL"):
+            return True
+        sh = sh.get("in")
+    return False
+
+
+def shape_uses_return(sh):
+    while sh:
+        if (sh["k"] != "F" and sh["cx"] == "r") or (sh["k"] != "C" and sh["fx"] == "r") or sh.get("tx", "n") == "r":
             return True
         sh = sh.get("in")
     return False
@@ -661,7 +718,7 @@ def _exit(x, d, which, evar):
     if x == "cL":
         return [cont("L")]
     if x == "r":
-        return [ret(num(100 + 10 * d + (1 if which == "f" else 0)))]
+        return [ret(num(100 + 10 * d + {"c": 0, "f": 1, "t": 2}[which]))]
     if x == "t":
         if (d + (which == "f")) % 2:
             return [throw(_reg(obj(init("from", s_(which + str(d)))), False))]
@@ -693,6 +750,8 @@ def build_shape(sh, S, d=1):
             c += inner_stmts
         else:
             f += inner_stmts
+    if pos != "catch" and sh.get("tx", "n") != "n" and (sh.get("in") or pos == "finally"):
+        t += _exit(sh["tx"], d, "t", evar)
     if k != "F":
         c += _exit(sh["cx"], d, "c", evar)
     if k != "C":
@@ -748,7 +807,7 @@ def build(desc):
     """Program of a recipe (dict).  Keys: c campaign; site; pl placement; nk / nk2 native kinds;
     sh shape; x expression context; p pending operands; lk inner loop kind; oc outer context 0..2;
     outer "catch" | "none"; twice 0/1."""
-    site = SITES[desc["site"]]
+    site = get_site(desc)
     pl = desc.get("pl", "same")
     sh = desc["sh"]
     C = desc.get("x", "stmt")
@@ -762,7 +821,7 @@ def build(desc):
     nk = desc.get("nk", "forEach")
     nk2 = desc.get("nk2", "map")
     decls = []
-    q0 = [var("q", ("qo", obj()))]
+    q0 = [var("q", "qo2", ("qo", obj()))]
     if pl == "same":
         core_stmts = S
     elif pl == "caller":
@@ -789,18 +848,34 @@ def build(desc):
     else:
         raise KeyError(pl)
     stmt = build_shape(sh, core_stmts)
-    hbody = [var("i", "j", "q", ("qo", obj())), log("H", num(0))]
+    hbody = [var("i", "j", "q", "qo2", ("qo", obj())), log("H", num(0))]
     if shape_uses_loops(sh):
         lk = desc.get("lk", "for")
         inner_loop = _loop(lk, "j", [log("it", id_("j")), stmt, log("post1", num(0))])
         part = [_loop("for", "i", [inner_loop, log("post-inner", id_("i"))], "L")]
     else:
         part = [stmt, log("post1", num(0))]
+    if desc.get("top") and not shape_uses_return(sh) and not needs_fn:
+        # the handler statement sits at program level (global variables, the program's own code)
+        main = [log("H", num(0))] + part + [log("H-end", num(0))]
+        body = prelude() + site["setup"] + decls + [var("i", "j", "q", "qo2", ("qo", obj()))]
+        if desc.get("outer", "catch") == "catch":
+            body.append(try_(main, ("eo", [log("outer", call(id_("T"), id_("eo")))]), None))
+            body.append(try_([throw(s_("Z"))], ("ez", [log("z", id_("ez"))]), [log("zf", num(0))]))
+        else:
+            body += main
+        body.append(expr(un("typeof", id_("q"))))
+        tags = ["site:" + site["kind"], "pl:" + pl, "top", "x:" + C, "p:%d" % P, "depth:%d" % shape_depth(sh), "outer:" + desc.get("outer", "catch")] + site["tags"]
+        if site["node_differs"]:
+            tags.append("node-differs")
+        if pl != "same" or site["kind"] != "runtime" and site["stmt"] is None or shape_has_finally(sh) or P > 0:
+            tags.append("nontrivial")
+        return {"sub": desc.get("c", "unw"), "id": _desc_id(desc), "body": body, "tags": sorted(set(tags)), "desc": desc}
     hn = desc.get("hn")
     if hn:
         # the handler itself runs inside a callback of a built-in: the built-in goes on iterating
         # after the callback has caught the exception
-        part = [expr(assign(id_("q"), _native_call(hn, _cb(hn, "hcb", [var("i", "j", "q", ("qo", obj()))] + part))))]
+        part = [expr(assign(id_("q"), _native_call(hn, _cb(hn, "hcb", [var("i", "j", "q", "qo2", ("qo", obj()))] + part))))]
     hbody += part + [log("H-end", num(0)), ret(num(7))]
     decls.append(fdecl("H", [], hbody))
     oc = desc.get("oc", 0)
@@ -826,7 +901,7 @@ def build(desc):
 
 
 def _shape_id(sh):
-    s = "%s.%s.%s" % (sh["k"], sh["cx"], sh["fx"])
+    s = "%s.%s.%s" % (sh["k"], sh["cx"], sh["fx"]) + ("." + sh["tx"] if sh.get("tx", "n") != "n" else "")
     if sh.get("in"):
         return s + "[" + sh["ipos"][0] + ":" + _shape_id(sh["in"]) + "]"
     return s + "@" + sh["spos"][0]
@@ -834,7 +909,7 @@ def _shape_id(sh):
 
 def _desc_id(d):
     return "|".join(str(x) for x in (d.get("c", "unw"), d["site"], d.get("pl", "same"), d.get("nk", ""), d.get("nk2", ""), _shape_id(d["sh"]) if "sh" in d else "",
-                                     d.get("x", "stmt"), d.get("p", 0), d.get("lk", ""), d.get("oc", 0), d.get("outer", "catch"), d.get("twice", 1), d.get("hn", ""), d.get("v", "")))
+                                     d.get("x", "stmt"), d.get("p", 0), d.get("lk", ""), d.get("oc", 0), d.get("outer", "catch"), d.get("twice", 1), d.get("hn", ""), "top" if d.get("top") else "", d.get("v", ""), d.get("text", "")))
 
 
 # ----------------------------------------------------------------------- campaigns
@@ -861,6 +936,8 @@ def sites_product():
                 if d["x"] == "stmt":
                     d["p"] = 0 if n % 2 else d["p"]
                 yield d
+                if si == 0 and pl in ("same", "native1"):
+                    yield dict(d, top=1, hn=None, x=d["x"] if d["x"] != "return" else "arg")
 
 
 def shapes_product():
@@ -874,8 +951,9 @@ def shapes_product():
             for pl in PLACEMENTS:
                 for sname in REPRESENTATIVE_SITES[:4] if spos == "try" else REPRESENTATIVE_SITES[:2]:
                     n += 1
-                    yield {"c": "shapes", "site": sname, "pl": pl, "sh": sh, "x": _rot(XCTX[:8], n), "p": n % 3, "nk": _rot(NATIVE_KINDS, n), "nk2": _rot(NATIVE_KINDS, n + 4),
-                           "lk": _rot(LOOP_KINDS, n), "oc": n % 3, "outer": "none" if n % 7 == 0 else "catch", "twice": 1, "hn": _rot(NATIVE_KINDS, n // 3) if n % 3 == 0 else None}
+                    yield {"c": "shapes", "site": sname, "pl": pl, "sh": sh, "x": _rot(XCTX, n), "p": n % 3, "nk": _rot(NATIVE_KINDS, n), "nk2": _rot(NATIVE_KINDS, n + 4),
+                           "lk": _rot(LOOP_KINDS, n), "oc": n % 3, "outer": "none" if n % 7 == 0 else "catch", "twice": 1, "hn": _rot(NATIVE_KINDS, n // 3) if n % 3 == 0 else None,
+                           "top": 1 if n % 5 == 2 else 0}
 
 
 OUTER_VARIANTS = [("C", "n", "n"), ("F", "n", "n"), ("CF", "n", "n"), ("CF", "rt", "n"), ("CF", "t", "n"), ("CF", "n", "r"), ("CF", "n", "b"), ("CF", "c", "n"),
@@ -894,8 +972,26 @@ def shapes2_product():
                     continue
                 n += 1
                 yield {"c": "shapes2", "site": _rot(["th:obj", "rt:call-undefined", "cb:forEach:1", "th:typeerror"], n), "pl": _rot(["same", "native1", "caller", "native2", "returned"], n // 2),
-                       "sh": sh, "x": _rot(XCTX[:8], n), "p": n % 3, "nk": _rot(NATIVE_KINDS, n), "nk2": _rot(NATIVE_KINDS, n + 3), "lk": _rot(LOOP_KINDS, n), "oc": n % 3,
+                       "sh": sh, "x": _rot(XCTX, n), "p": n % 3, "nk": _rot(NATIVE_KINDS, n), "nk2": _rot(NATIVE_KINDS, n + 3), "lk": _rot(LOOP_KINDS, n), "oc": n % 3,
                        "outer": "none" if n % 11 == 0 else "catch", "twice": 1, "hn": _rot(NATIVE_KINDS, n // 5) if n % 5 == 0 else None}
+
+
+TRY_EXITS = ["b", "c", "bL", "cL", "r"]
+
+
+def shapes3_product():
+    """exit of the *try block* by break / continue / labelled / return: after an inner statement that
+    swallowed (or not) the exception, and with the throwing statement in the finally block."""
+    n = 0
+    for ok in ("F", "CF"):
+        for tx in TRY_EXITS:
+            cands = [shape1(ok, "n", "n", inner=inner, ipos="try", tx=tx) for inner in all_shapes1("try")]
+            cands += [shape1(ok, cx, fx, spos="finally", tx=tx) for cx in (["n"] if ok == "F" else ["n", "r"]) for fx in FINALLY_EXITS]
+            for sh in cands:
+                n += 1
+                yield {"c": "shapes3", "site": _rot(["th:error", "rt:null-prop", "cb:some:1", "x:eval_call_th", "acc:setter"], n), "pl": _rot(PLACEMENTS, n // 2),
+                       "sh": sh, "x": _rot(XCTX, n), "p": n % 3, "nk": _rot(NATIVE_KINDS, n), "nk2": _rot(NATIVE_KINDS, n + 3), "lk": _rot(LOOP_KINDS, n), "oc": n % 3,
+                       "outer": "none" if n % 9 == 0 else "catch", "twice": 1, "hn": _rot(NATIVE_KINDS, n // 4) if n % 4 == 0 else None}
 
 
 def uncaught_cases():
@@ -913,12 +1009,12 @@ def uncaught_cases():
 
 def errobj_program(desc):
     """Runtime-error site caught by a handler that logs the class facts CI(e)."""
-    site = SITES[desc["site"]]
+    site = get_site(desc)
     pl = desc.get("pl", "same")
     S, needs_fn = xctx(site["e"], desc.get("x", "stmt"), desc.get("p", 0))
     if needs_fn and pl == "same":
         pl = "caller"
-    q0 = [var("q", ("qo", obj()))]
+    q0 = [var("q", "qo2", ("qo", obj()))]
     decls = []
     if pl == "same":
         core_stmts = S
@@ -928,7 +1024,7 @@ def errobj_program(desc):
     else:
         nk = desc.get("nk", "forEach")
         core_stmts = [expr(_native_call(nk, _cb(nk, "cb1", q0 + S)))]
-    body = prelude() + [errinfo_fn()] + site["setup"] + decls + [var("q", ("qo", obj()))] + [
+    body = prelude() + [errinfo_fn()] + site["setup"] + decls + [var("q", "qo2", ("qo", obj()))] + [
         try_(core_stmts + [log("no-throw", num(0))], ("e", [log("info", call(id_("CI"), id_("e")))]), None),
         expr(num(0)),
     ]
@@ -943,7 +1039,7 @@ def errobj_cases():
             continue
         for pl in ("same", "caller", "native1"):
             n += 1
-            yield {"c": "errobj", "site": sname, "pl": pl, "x": _rot(XCTX[:8], n), "p": n % 3, "nk": _rot(NATIVE_KINDS, n)}
+            yield {"c": "errobj", "site": sname, "pl": pl, "x": _rot(XCTX, n), "p": n % 3, "nk": _rot(NATIVE_KINDS, n)}
 
 
 # ------------------------------------------------------------------------ location
@@ -966,13 +1062,17 @@ def location_program(desc):
         S = [throw(v)]
         setup = []
     else:
-        site = SITES[desc["site"]]
+        site = get_site(desc)
         setup = site["setup"]
         P = desc.get("p", 0)
         e = site["e"]
         if P:
             e = bin_("+", call(id_("s"), num(1000)), e)
         S = [expr(assign(id_(LOC_MARK), e))]
+        if desc.get("form") == "for-update":
+            # the body follows the failing expression in the text: its position must not be reported
+            S = [for_(assign(id_(LOC_MARK), num(0)), bin_("<", id_(LOC_MARK), num(2)), assign(id_(LOC_MARK), e),
+                      block(var(("w2", num(1))), if_(bin_("===", id_("w2"), num(2)), block(log("never", num(0))))))]
     filler = [var(("w", num(1))), if_(bin_("===", id_("w"), num(2)), block(log("never", num(0))))]
     decls = []
     nk = desc.get("nk", "forEach")
@@ -1042,6 +1142,10 @@ def location_cases():
                 continue
             n += 1
             yield {"c": "location", "kind": "runtime", "site": sname, "pl": pl, "prior": n % 2, "p": (n // 2) % 2, "nk": _rot(NATIVE_KINDS[:8], n), "nk2": _rot(NATIVE_KINDS[:8], n + 3), "lay": n % 3}
+    for pl in ("same", "caller", "native1", "getter", "catch"):
+        for sname in ("rt:nullvar-prop", "rt:unknown-id", "rt:call-undefined", "x:repeat_neg", "rt:instanceof-number"):
+            n += 1
+            yield {"c": "location", "kind": "runtime", "site": sname, "pl": pl, "prior": n % 2, "p": 0, "nk": _rot(NATIVE_KINDS[:8], n), "lay": n % 3, "form": "for-update"}
 
 
 # -------------------------------------------------------------------------- random
@@ -1050,10 +1154,11 @@ def random_shape(rnd, depth):
     cx = rnd.choice(CATCH_EXITS + ["n", "rt", "t"])
     fx = rnd.choice(FINALLY_EXITS + ["n", "n", "n"])
     for _ in range(20):
+        tx = rnd.choice(["n", "n", "n"] + TRY_EXITS)
         if depth > 1:
-            sh = shape1(k, cx, fx, inner=random_shape(rnd, depth - 1), ipos=rnd.choice(["try", "try", "catch", "finally"]))
+            sh = shape1(k, cx, fx, inner=random_shape(rnd, depth - 1), ipos=rnd.choice(["try", "try", "catch", "finally"]), tx=tx)
         else:
-            sh = shape1(k, cx, fx, spos=rnd.choice(["try", "try", "try", "catch", "finally"]))
+            sh = shape1(k, cx, fx, spos=rnd.choice(["try", "try", "try", "catch", "finally"]), tx=tx)
         if shape_valid(sh):
             return sh
         k = "CF"
@@ -1063,14 +1168,14 @@ def random_shape(rnd, depth):
 _SITE_NAMES = sorted(SITES)
 
 
-def random_desc(seed_int):
+def random_desc(seed_int, site=None):
     rnd = random.Random(seed_int)
-    sname = rnd.choice(_SITE_NAMES)
+    sname = site or rnd.choice(_SITE_NAMES)
     depth = rnd.choice([1, 2, 2, 3, 3])
-    stmt_site = SITES[sname]["stmt"] is not None
+    stmt_site = sname != "dyn" and SITES[sname]["stmt"] is not None
     return {"c": "random", "site": sname, "pl": rnd.choice(PLACEMENTS), "sh": random_shape(rnd, depth), "x": "stmt" if stmt_site else rnd.choice(XCTX),
             "p": 0 if stmt_site else rnd.randrange(3), "nk": rnd.choice(NATIVE_KINDS), "nk2": rnd.choice(NATIVE_KINDS), "lk": rnd.choice(LOOP_KINDS), "oc": rnd.randrange(3),
-            "outer": rnd.choice(["catch", "catch", "catch", "none"]), "twice": rnd.randrange(2), "hn": rnd.choice([None, None, None] + NATIVE_KINDS), "v": seed_int}
+            "outer": rnd.choice(["catch", "catch", "catch", "none"]), "twice": rnd.randrange(2), "hn": rnd.choice([None, None, None] + NATIVE_KINDS), "top": 1 if rnd.randrange(6) == 0 else 0, "v": seed_int}
 
 
 def from_desc(d):
@@ -1084,4 +1189,4 @@ def from_desc(d):
 
 def all_model_campaigns():
     """(name, generator of recipes) for every campaign compared with the reference interpreter."""
-    return [("sites", sites_product()), ("shapes", shapes_product()), ("shapes2", shapes2_product()), ("uncaught", uncaught_cases()), ("errobj", errobj_cases())]
+    return [("sites", sites_product()), ("shapes", shapes_product()), ("shapes2", shapes2_product()), ("shapes3", shapes3_product()), ("uncaught", uncaught_cases()), ("errobj", errobj_cases())]
